@@ -12,7 +12,7 @@ RULE = ("anchor x comparison tables over a 9-row alphabet (3 alpha parts x 3 bet
 ASSUMPTIONS = ["tidytcells.tr.get_aa_sequence is the trusted data source for CDR1/CDR2 (property wording)",
                "the value at [i,j] may depend only on (row i, row j): all 81 ordered row pairs are covered, tables establish locality/order/label independence",
                "rapidfuzz cdist workers=-1 answered with one thread in the bulk spaces"]
-REQUIRED_CLASSES = {"all": ["allele-without-cdr2", "empty-cdr3", "distinct-prime-weights", "permuted-index", "duplicated-index", "rejects-non-table", "free-running-threads"]}
+REQUIRED_CLASSES = {"all": ["allele-without-cdr2", "empty-cdr3", "distinct-prime-weights", "permuted-index", "duplicated-index", "rejects-non-table", "free-running-threads", "cdr3-distance-beyond-bins"]}
 MIN_OUTCOMES = 10
 SINGLE_THREAD_RAPIDFUZZ = True
 TIER = "quick"
@@ -75,6 +75,9 @@ def table(rows, index="default", extra=False):
          "TRBV": [BETA[b][0] for a, b in rows], "CDR3B": [BETA[b][1] for a, b in rows]}
     if extra:
         d["Epitope"] = ["X"] * len(rows)
+        # a caller's table may carry any further columns, also ones named like the loops the metric derives from the V allele
+        for c in ("CDR1A", "CDR2A", "CDR1B", "CDR2B"):
+            d[c] = ["WWWW"] * len(rows)
     df = pd.DataFrame(d)
     n = len(rows)
     if index == "shifted":
@@ -111,12 +114,14 @@ def spaces(tier):
     def gen_reject():
         yield ("reject",)
         yield ("free",)
+        for n in (24, 25, 26, 36, 51, 71, 80):
+            yield ("longcdr3", n)
 
     return [
         Space("anchor-x-comparison-tables", gen_tables, "anchors in Lists(R,2) x comparisons in Lists(R,1) + every 4th of Lists(R,2)\\Lists(R,1) (quick) / Lists(R,3) (thorough) x 6 classes x {default, distinct-prime} weights; one case = one anchor table against every comparison table", shards=45),
         Space("weight-star", gen_wstar, "81 one-row x one-row tables: each of the 8 weights in {1,2,3} alone and every pair of weights in {1,2}^2; one case = one (anchor row, comparison row)"),
         Space("label-star", gen_label, "all 2-row and (quick: every 9th; thorough: all) 3-row tables x index in {default, shifted, permuted, duplicated, string} x extra column; pdist == condensed upper triangle", shards=32),
-        Space("rejections-and-free-threads", gen_reject, "non-table / no-TCR-column inputs must raise ValueError; free-running rapidfuzz threads on the 9x9 row table", per_case=True),
+        Space("rejections-and-free-threads", gen_reject, "non-table / no-TCR-column inputs must raise ValueError; free-running rapidfuzz threads on the 9x9 row table; CDR3s of 24..80 residues (distances beyond every class's bins)", per_case=True),
     ]
 
 
@@ -248,6 +253,35 @@ def check_case(case, acc):
                     acc.fail("%s/non-table-not-rejected/%s" % (cls, bname), case, "ValueError", r if raised(r) else "returned a result", note="pdist")
                     return
                 acc.ok()
+    elif kind == "longcdr3":
+        # CDR3 distances beyond 25 / 35 / 50 / 70 (the classes' plotting bins): values must stay exact sums
+        n = case[1]
+        acc.cls("cdr3-distance-beyond-bins")
+        import pandas as pd
+        A = pd.DataFrame({"TRAV": ["TRAV1-1*01", "TRAV5*01", "TRAV1-1*01"], "CDR3A": ["C" + "A" * (n - 1), "", "C" + "S" * (n - 2) + "F"],
+                          "TRBV": ["TRBV2*01", "TRBV2*01", "TRBV6-9*01"], "CDR3B": ["", "C" + "Q" * (n - 1), "CAS"]})
+        rowsA = [(A.TRAV[i], A.CDR3A[i], A.TRBV[i], A.CDR3B[i]) for i in range(3)]
+        for cls in CLASSES:
+            for wname, weights in (("default", {}), ("primes", PRIMES)):
+                m, kw = make(cls, weights)
+                w = dict(zip(WNAMES, (1,) * 8)); w.update(kw)
+                chains, lps = SCOPE[cls]
+
+                def val(r1, r2):
+                    tot = 0
+                    for ch in chains:
+                        v1, c1 = (r1[0], r1[1]) if ch == "A" else (r1[2], r1[3])
+                        v2, c2 = (r2[0], r2[1]) if ch == "A" else (r2[2], r2[3])
+                        for lp in lps:
+                            x, y = (c1, c2) if lp == 3 else (loops(v1)[lp - 1], loops(v2)[lp - 1])
+                            tot += (w["alpha_weight"] if ch == "A" else w["beta_weight"]) * w["cdr%d_weight" % lp] * ref_wlev(x, y, w["insertion_weight"], w["deletion_weight"], w["substitution_weight"])
+                    return tot
+                exp = [[val(a, b) for b in rowsA] for a in rowsA]
+                r = acc.call(m.calc_cdist_matrix, A, A.copy())
+                if raised(r) or r.tolist() != exp:
+                    acc.fail("%s/long-cdr3/%s" % (cls, "raised-" + r.type if raised(r) else "value"), case, exp, r if raised(r) else r.tolist(), note=wname)
+                    return
+                acc.ok((cls, wname, n, exp[0][1]), nontrivial=True)
     elif kind == "free":
         from mc.seams import free_threads
         acc.cls("free-running-threads")
